@@ -187,7 +187,10 @@ where
 
             // The next reply is only taken from the replier once the previous one has been routed,
             // otherwise a reply that is waiting for a slow requestor would be overwritten.
-            if server.is_some() && buffered_rep.is_none() {
+            if server.is_none() {
+                // Nothing can arrive from a replier that isn't bound
+                server_pending = true;
+            } else if buffered_rep.is_none() {
                 let st = &mut server.as_mut().as_pin_mut().unwrap().1;
 
                 match st.poll_next_unpin(cx) {
@@ -240,18 +243,9 @@ where
                 Poll::Ready(Some((_, Err(e)))) => {
                     error!("Received invalid message from requestor: {e:?}")
                 }
-                // All streams have finished
+                // No requestor is connected, so nothing can arrive from one
                 Poll::Ready(None) => {
-                    // Unwrapping is safe as the underlying sink is guaranteed not to error
-                    ready!(sink.as_mut().poll_flush(cx)).unwrap();
-
-                    if server.is_some() {
-                        let si = &mut server.as_mut().as_pin_mut().unwrap().0;
-                        if let Err(e) = ready!(si.poll_flush_unpin(cx)) {
-                            error!("Unbinding broken replier: {e:?}");
-                            *server = None;
-                        }
-                    }
+                    stream_pending = true;
                 }
                 // No messages are available at this time
                 Poll::Pending => {
